@@ -85,7 +85,10 @@ def charset_for_nodes(nodes, flags, key):
     if rg in _cs_by_ranges:
         name = _cs_by_ranges[rg]
     else:
-        name = f"cs{len(_cs_defs)}"
+        # content-addressed name: an edit to one pattern must not rename the character sets of the others
+        # (proof scripts mention some sets by name)
+        name = "cs_" + hashlib.sha1(repr(rg).encode()).hexdigest()[:8]
+        assert name not in {n for n, _ in _cs_defs}, 'charset name collision'
         _cs_defs.append((name, rg))
         _cs_by_ranges[rg] = name
     _cs_cache[k] = name
